@@ -51,7 +51,7 @@ KINDS = ['ok-text', 'ok-cookie', 'ok-zoo', 'nf', 'na', 'badpath', 'crash', 'rais
          'iterable', 'cookie-then-body-error'] + list(BODY_KINDS)
 
 
-def gen_hreq(g, rng, rid, kind=None):
+def gen_hreq(g, rng, rid, kind=None, spec=None):
     """-> dict(req=zoo request, kind, body, extra, pre, bodyerr)"""
     kind = kind or rng.choice(KINDS)
     req = dict(id=rid, method='GET', fw=rng.random() < .3, path_ok=True,
@@ -100,6 +100,8 @@ def gen_hreq(g, rng, rid, kind=None):
         pre, body, extra, bodyerr = BODY_KINDS[kind]
         req['route'] = ('h', [], ('ret', ('t', 'body-ok')))
         req['method'] = 'POST'
+    if spec is not None and rng.random() < .3 and zoo.json_safe(spec, req):
+        req['json'] = True       # JSON error bodies (same mapped error, other representation)
     return dict(req=req, kind=kind, body=body, extra=dict(extra), pre=pre, bodyerr=bodyerr)
 
 
@@ -235,7 +237,7 @@ class C09(Check):
         return bool(sample.get('nontrivial'))
 
     # ------------------------------------------------------------------
-    def gen_history(self, g, rng):
+    def gen_history(self, g, rng, spec=None):
         n = rng.choice([1, 2, 2, 3, 3, 4, 5, 6, 8, 10, 12])
         hist = []
         for i in range(n):
@@ -246,7 +248,7 @@ class C09(Check):
                                    'request-error', 'cookie-then-body-error'])
             elif rng.random() < .25:
                 kind = rng.choice(['ok-cookie', 'raise-resp'])
-            hist.append(gen_hreq(g, rng, i + 1, kind))
+            hist.append(gen_hreq(g, rng, i + 1, kind, spec))
         return hist
 
     def run_history(self, spec, hist, retention=False):
@@ -269,7 +271,7 @@ class C09(Check):
         g = zoo.Gen(rng)
         for _ in range(n):
             spec = fixed_app(g, rng)
-            hist = self.gen_history(g, rng)
+            hist = self.gen_history(g, rng, spec)
             outs, urls, live = zoo.watchdog(lambda: self.run_history(spec, hist, retention=True), 60)
             toks = zoo.ser_app(spec) + [str(len(hist))]
             for h, u in zip(hist, urls):
@@ -291,7 +293,7 @@ class C09(Check):
         for kind in ['chunked-garbage', 'oversize', 'bad-json', 'request-error', 'crash', 'badpath', 'nf',
                      'cookie-then-body-error']:
             for N in sizes:
-                hist = [gen_hreq(g, rng, i + 1, kind) for i in range(N)]
+                hist = [gen_hreq(g, rng, i + 1, kind, dict(before=[], after=[], errh=[])) for i in range(N)]
                 spec = dict(before=[], after=[], errh=[])
                 outs, urls, live = self.run_history(spec, hist, retention=True)
                 toks = zoo.ser_app(spec) + [str(N)]
@@ -378,7 +380,7 @@ class C09(Check):
         srv = Server(dict(before=[], after=[], errh=[]))
         keep = []
         for i in range(N):
-            srv.serve(gen_hreq(g, rng, i + 1, kind), keep)
+            srv.serve(gen_hreq(g, rng, i + 1, kind, dict(before=[], after=[], errh=[])), keep)
         gc.collect()
         envs = len([1 for r in keep[0::2] if r() is not None])
         inputs = len([1 for r in keep[1::2] if r() is not None])
@@ -394,7 +396,7 @@ class C09(Check):
         def burst(k):
             for _ in range(k):
                 rid[0] += 1
-                srv.serve(gen_hreq(g, rng, rid[0], kind))
+                srv.serve(gen_hreq(g, rng, rid[0], kind, dict(before=[], after=[], errh=[])))
         burst(20)                      # warm-up: caches filled, routes installed
         burst(N)
         gc.collect()
@@ -414,7 +416,7 @@ class C09(Check):
         def one_pass():
             for k in KINDS * max(1, n):
                 rid[0] += 1
-                srv.serve(gen_hreq(g, rng, rid[0], k))
+                srv.serve(gen_hreq(g, rng, rid[0], k, dict(before=[], after=[], errh=[])))
         one_pass()
         a = class_state_snapshot()
         one_pass()
@@ -438,7 +440,8 @@ class C09(Check):
                 hist = [dict(x, cl_is_framework=False, ctype_is_framework=False) for x in d['hist']]
                 cases.append((self._spec(d['app']), hist))
         for _ in range(n):
-            cases.append((fixed_app(g, rng), self.gen_history(g, rng)))
+            spec = fixed_app(g, rng)
+            cases.append((spec, self.gen_history(g, rng, spec)))
         for spec, hist in cases:
             if len({f.key for f in findings}) >= 6 or len(findings) >= 40:
                 break           # enough replays; the run is failing anyway
